@@ -371,6 +371,38 @@ def check_special(ctx, case):
         elif not np.allclose(forced, want_forced):
             ctx.violation(f"sub-model sender (entry upstream of the receiver), feedback forced on its entry node: the receiver read {forced}, expected the "
                           f"sub-model applied to the forced value of the previous step {want_forced}", case, obligation=ob)
+    elif case["kind"] == "k19_submodel_fully_upstream":
+        # finding K19: when ALL nodes of a sub-model sender are upstream of the receiver in the forward graph, the receiver
+        # reads the sub-model's output of the SAME step
+        def run_case():
+            seen = []
+
+            def scale(k):
+                return Node(forward=lambda node, x: x * k, initializer=dim_init)
+
+            def recv(node, x):
+                seen.append(float(np.asarray(node.feedback()).ravel()[0]))
+                return x + 0.0
+            src, S1, T = scale(1.0), scale(2.0), scale(10.0)
+            R = Node(forward=recv, initializer=dim_init)
+            R <<= S1 >> T
+            m = src >> S1 >> T >> R
+            X = np.arange(1.0, 6.0).reshape(-1, 1)
+            m.run(X)
+            return seen, X[:, 0].tolist()
+        r = common.exc_class(run_case)
+        if r[0] != "ok":
+            ctx.violation(f"a model whose feedback sender is an upstream sub-model raised {r[1]}", case, obligation=ob)
+            return
+        seen, X = r[1]
+        want = [0.0] + [20.0 * v for v in X[:-1]]
+        if not np.allclose(seen, want):
+            msg = (f"sub-model feedback sender whose nodes are all upstream of the receiver: the receiver read {seen}, expected the one-step-delayed "
+                   f"{want}" + (" (it reads the value of the SAME step)" if np.allclose(seen, [20.0 * v for v in X]) else ""))
+            if "K19" in open_k and np.allclose(seen, [20.0 * v for v in X]):
+                ctx.known("K19", msg)
+            else:
+                ctx.violation(msg, case, obligation=ob)
     elif case["kind"] == "fit_run_fit_reset":
         # fit, run (the readout now emits something), fit again, then a run from reset states (or from given states): at
         # its first step the receiver must read the sender's state as installed - nothing left over from the fits
@@ -430,7 +462,7 @@ def check_special(ctx, case):
 
 
 def check_case(ctx, case):
-    if case.get("kind") in ("k1_submodel_sender", "k10_list_senders", "call_options", "train_learn_every", "fit_run_fit_reset", "submodel_sender_upstream"):
+    if case.get("kind") in ("k1_submodel_sender", "k10_list_senders", "call_options", "train_learn_every", "fit_run_fit_reset", "submodel_sender_upstream", "k19_submodel_fully_upstream"):
         return check_special(ctx, case)
     common.quiet()
     _BUFS.clear()
